@@ -172,7 +172,7 @@ def ref_frame(frame, watches):
     wres = []
     for w in watches:
         try:
-            wres.append(('ok', struct(eval(w, frame.f_globals, frame.f_locals), 2, frozenset())))
+            wres.append(('ok', struct(eval(w, snapref.names_at(frame)), 2, frozenset())))
         except BaseException as e:
             wres.append(('err', e))
     return {'locals': loc, 'stack': snapref.stack_of(frame), 'watches': wres}
